@@ -180,7 +180,10 @@ def build(desc: dict) -> Any:
         o.attrs = copy.deepcopy(attrs)
         if cattrs:
             for c in o.coords:
-                if c in o.dims and not isinstance(o.indexes.get(c), pd.MultiIndex):
+                # (a datetime coordinate that carries e.g. a 'units' attribute cannot be CF-encoded by
+                #  xarray at all - not even by the user's own ds.to_netcdf() - so it is not generated)
+                if c in o.dims and not isinstance(o.indexes.get(c), pd.MultiIndex) \
+                        and o[c].dtype.kind != "M":
                     o[c].attrs = copy.deepcopy(cattrs)
 
     ch = desc.get("chunks")
